@@ -23,6 +23,7 @@ from sa.facts import Facts
 from sa.model import stmt_text
 from sa.symeval import Interp, sym_vec, to_obj
 from sa.lib import eq
+from sa.desugar import desugared
 
 F = "ahrs/filters/"
 # entry point -> (unit parameters, {return text: exemption reason})
@@ -45,33 +46,61 @@ ENTRY = {
 
 
 def return_context(f):
-    """{id(Return node): 'quaternion' | 'angles' | 'rotmat' | None} from the enclosing `representation == '...'` tests.
-    Returns after an `if representation == 'quaternion': return ...` fall through to the remaining representation."""
+    """{id(Return node): 'quaternion' | 'angles' | 'rotmat' | 'other' | None} from the enclosing tests of the representation option
+    (`representation == '...'`, `!=`, `in (...)`, also through a local holding `representation.lower()`).
+    Returns after an `if representation == 'quaternion': return ...` fall through to the remaining (non-quaternion) representations."""
     ctx = {}
+    holders = {"representation"}
+    for n in ast.walk(f.node):
+        if isinstance(n, ast.Assign) and len(n.targets) == 1 and isinstance(n.targets[0], ast.Name) and "representation" in ast.unparse(n.value) \
+                and not any(isinstance(x, (ast.Compare, ast.BoolOp, ast.IfExp)) for x in ast.walk(n.value)):
+            holders.add(n.targets[0].id)
+    KINDS = ("quaternion", "angles", "rotmat")
 
     def rep_of(test):
-        t = ast.unparse(test)
-        if "representation" not in t:
+        """(context of the body, context of the else branch / of what follows a returning body); None = no information"""
+        if isinstance(test, ast.UnaryOp) and isinstance(test.op, ast.Not):
+            r = rep_of(test.operand)
+            return (r[1], r[0]) if r else None
+        if not (isinstance(test, ast.Compare) and len(test.ops) == 1):
             return None
-        for k in ("quaternion", "angles", "rotmat"):
-            if "'%s'" % k in t:
-                return k
+        if not any((isinstance(x, ast.Name) and x.id in holders) or (isinstance(x, ast.Attribute) and x.attr in holders) for x in ast.walk(test.left)):
+            return None
+        op, right = test.ops[0], test.comparators[0]
+        if isinstance(op, (ast.Eq, ast.NotEq)) and isinstance(right, ast.Constant) and right.value in KINDS:
+            k = right.value
+            pos, neg = (k, "other" if k == "quaternion" else None)
+            return (pos, neg) if isinstance(op, ast.Eq) else (neg, pos)
+        if isinstance(op, (ast.In, ast.NotIn)) and isinstance(right, (ast.Tuple, ast.List, ast.Set)) and all(isinstance(e, ast.Constant) for e in right.elts):
+            vals = {e.value for e in right.elts}
+            if not vals <= set(KINDS):
+                return None
+            if vals == {"quaternion"}:
+                pos, neg = "quaternion", "other"
+            elif "quaternion" not in vals:
+                pos, neg = "other", None
+            else:
+                return None
+            return (pos, neg) if isinstance(op, ast.In) else (neg, pos)
         return None
 
-    def walk(stmts, cur, seen_q):
+    def exits(stmts):
+        return bool(stmts) and isinstance(stmts[-1], (ast.Return, ast.Raise))
+
+    def walk(stmts, cur):
         for s in stmts:
             if isinstance(s, ast.Return):
-                ctx[id(s)] = cur if cur else ("other" if seen_q[0] else None)
+                ctx[id(s)] = cur
             elif isinstance(s, ast.If):
                 r = rep_of(s.test)
-                walk(s.body, r or cur, seen_q)
-                if r == "quaternion":
-                    seen_q[0] = True
-                walk(s.orelse, cur, seen_q)
+                walk(s.body, (r[0] if r and r[0] else cur))
+                walk(s.orelse, (r[1] if r and r[1] else cur))
+                if r and exits(s.body) and r[1] and not s.orelse:
+                    cur = r[1]          # the body left: what follows runs under the negation
             elif isinstance(s, (ast.For, ast.While, ast.With, ast.Try)):
-                walk(getattr(s, "body", []), cur, seen_q)
-                walk(getattr(s, "orelse", []), cur, seen_q)
-    walk(f.body(), None, [False])
+                walk(getattr(s, "body", []), cur)
+                walk(getattr(s, "orelse", []), cur)
+    walk(f.body(), None)
     return ctx
 
 
@@ -179,7 +208,7 @@ def count_rule(chk, prog, only=None):
     for key, min_loops in BATCH:
         if only and key not in only:
             continue
-        f = prog.func(F + key)
+        f = desugared(prog.func(F + key))       # enumerate / zip sample loops in index form
         chk.touch(f)
         allocs = {}          # name -> vn of leading length
         loops = []
@@ -291,7 +320,11 @@ def loop_ok(fa, node, st, var, arr, idx, allocs):
     # len(Q) of the allocated array itself is the allocation length
     if isinstance(stop, ast.Call) and isinstance(stop.func, ast.Name) and stop.func.id == "len" and isinstance(stop.args[0], ast.Name) and stop.args[0].id == arr:
         stop_vn = n_vn
-    if stop_vn != n_vn:
+    def canon(v_):       # len(X) and X.shape[0] are the same number
+        return v_[4:-1] + ".shape[c:0]" if isinstance(v_, str) and v_.startswith("len(") and v_.endswith(")") else v_
+    # a zip() loop stops with its shortest array: any of the zipped arrays (validated to have one shape) gives the bound
+    alts = {canon(fa.vn(a_, st)) for a_ in getattr(node, "_alt_stops", [])}
+    if canon(stop_vn) != canon(n_vn) and canon(n_vn) not in alts:
         return False, "loop bound `%s` (%s) differs from the output length (%s): the last rows keep their initial zeros or the loop overruns" % (ast.unparse(stop), stop_vn, n_vn)
     if not (isinstance(idx, ast.Name) and idx.id == var):
         return False, "row stored at `%s`, not at the loop index `%s`" % (ast.unparse(idx), var)
@@ -388,32 +421,51 @@ def integration_length(chk, prog):
     it is given (one attitude per sample), decided by a small length analysis (slices shift, element-wise and cumulative operations keep the length)"""
     f = prog.func(F + "angular.py::AngularRate.integrate_angular_positions")
     chk.touch(f)
-    env = {}
     rets = []
-    for s_ in f.node.body:
-        if isinstance(s_, ast.Assign) and isinstance(s_.targets[0], ast.Name):
-            v = length_of(s_.value, env)
-            if v is not None:
-                env[s_.targets[0].id] = v
-            else:
-                env.pop(s_.targets[0].id, None)
-        for r in ast.walk(s_):
-            if isinstance(r, ast.Return) and r.value is not None:
-                rets.append((r, dict(env)))
-    n = 0
-    for r, e_ in rets:
-        v = r.value
+
+    def unwrap(v):
         # representation conversions keep one row per row: look through Quaternion-array constructors / method calls on the integrated angles
         inner = v
-        while isinstance(inner, ast.Call):
-            if isinstance(inner.func, ast.Attribute) and not inner.args:
+        while isinstance(inner, ast.Call) and (not isinstance(inner.func, ast.Attribute) or not (ast.unparse(inner.func).startswith(("np.", "numpy.")))):
+            if isinstance(inner.func, ast.Attribute) and not inner.args and not inner.keywords:
                 inner = inner.func.value
-            elif inner.args:
-                inner = inner.args[0]
-            elif inner.keywords:
-                inner = inner.keywords[0].value
+            elif isinstance(inner.func, ast.Name) and inner.func.id[:1].isupper() and (inner.args or inner.keywords):
+                inner = inner.args[0] if inner.args else inner.keywords[0].value
             else:
                 break
+        return inner
+
+    def walk(stmts, env):
+        for s_ in stmts:
+            if isinstance(s_, ast.Assign) and len(s_.targets) == 1 and isinstance(s_.targets[0], ast.Name):
+                v = length_of(s_.value, env)
+                if v is None:
+                    v = length_of(unwrap(s_.value), env)
+                if v is not None:
+                    env[s_.targets[0].id] = v
+                else:
+                    env.pop(s_.targets[0].id, None)
+            elif isinstance(s_, ast.Return) and s_.value is not None:
+                rets.append((s_, dict(env)))
+            elif isinstance(s_, ast.If):
+                e1, e2 = dict(env), dict(env)
+                walk(s_.body, e1)
+                walk(s_.orelse, e2)
+                for k_ in list(env):
+                    if e1.get(k_) != e2.get(k_):
+                        env.pop(k_)
+                for k_ in e1:
+                    if k_ not in env and e1.get(k_) == e2.get(k_):
+                        env[k_] = e1[k_]
+            elif isinstance(s_, (ast.For, ast.While, ast.With, ast.Try)):
+                for fld in ("body", "orelse", "finalbody"):
+                    walk(getattr(s_, fld, []) or [], env)
+                for h_ in getattr(s_, "handlers", []):
+                    walk(h_.body, env)
+    walk(f.body(), {})
+    n = 0
+    for r, e_ in rets:
+        inner = unwrap(r.value)
         ln = length_of(inner, e_)
         site = "%s::%s" % (f.ref, stmt_text(r)[:60])
         if ln is None:
